@@ -145,6 +145,14 @@ def check_ms(t):
         if got != (True, False, False, True, False, True, True, False):
             out.append(('comparison operators on date-times %s apart (< = > <= >= <>, then reversed > =)' % step, (True, False, False, True, False, True, True, False), got))
             break
+        # ... and so does subtraction: the days between them, time of day included
+        days = step.total_seconds() / 86400.0
+        if d < datetime.datetime(1900, 3, 1):
+            continue        # before 1 March 1900 serials are not day counts (1 January 1900 00:00 is 0, the phantom 29 February)
+        diff = (p.parse('tb-ta')['result'], p.parse('ta-tb')['result'])
+        if not all(isinstance(x, (int, float)) and not isinstance(x, bool) for x in diff) or abs(diff[0] - days) > 6e-9 or abs(diff[1] + days) > 6e-9:
+            out.append(('difference of date-times %s apart (later - earlier, earlier - later)' % step, (days, -days), diff))
+            break
     got = tuple(p.parse(f)['result'] for f in ('ta=tc', 'ta<tc', 'ta>=tc', 'ta=N(ta)', 'N(ta)<=ta'))
     if got != (True, False, True, True, True):
         out.append(('comparison operators on equal date-times / a date-time and its own serial', (True, False, True, True, True), got))
